@@ -8,6 +8,16 @@ PY = '/venv/bin/python'
 
 # property -> (category, level text, level note, technique, design ref)
 CLAIMED = {
+    'C08': ('other',
+            'Repository-specific static rules: the allocator only returns values it reserved on that path and tested free (caller-supplied ids only when '
+            'positive), search_pos discipline; the used-id set is private to the managers and object ids are assigned only from get_id in constructors '
+            '(package-wide scan of `.id =`); each class acquires and releases through its own manager and is never re-parented; an object id is '
+            'released only by that object\'s __del__ (typestate: no release while the object is still reachable/re-addable), node ids released on '
+            'removal are re-acquired on add; fixup indexes are the lowest unused index >= 1 and survive copies.',
+            'Trusted: CPython ast; shape rules are written against the idioms present today and fail closed (exit 2) on unknown shapes. '
+            'GC timing and cross-map moves are outside the decided clauses.',
+            'static: allocator shape rule + who-may-write/who-may-release rules + manager pairing',
+            'DESIGN.md section 3, C08'),
     'C07': ('other',
             'Repository-specific static rules over every site (package-wide) that mutates the two derived indexes or the entity key store: key '
             'normal form at each index mutation (string-form dataflow: casefolded; by_target maps empty to None), single-writer discipline for '
